@@ -36,10 +36,10 @@ def anyName (p : String → Bool) : Expr → Bool
   | .index a _ _ i => p a || anyName p i
 
 /-- `this.f`, `this.arr[i]`: what `x.Mentions(recv)` finds for the receiver `this` -/
-def isThisName (n : String) : Bool := n.startsWith "this."
+def isThisName (n : String) : Bool := "this.".toList.isPrefixOf n.toList
 
 /-- `args.x` -/
-def isArgsName (n : String) : Bool := n.startsWith "args."
+def isArgsName (n : String) : Bool := "args.".toList.isPrefixOf n.toList
 
 /-- what a coroutine suspension can change: `updateFactsForSuspension` drops the facts
 involving `args` or `this` (pointer-typed locals do not exist in this fragment) -/
